@@ -102,6 +102,13 @@ func (e *Env) String() string {
 	}
 
 	for symbol, value := range e.values {
+		if value.IsValid() && value.CanInterface() {
+			if module, isEnv := value.Interface().(*Env); isEnv {
+				// a bound module is another scope with a lock of its own: name it, do not walk its tables
+				buffer.WriteString(fmt.Sprintf("%v = (%T)(%p)\n", symbol, module, module))
+				continue
+			}
+		}
 		buffer.WriteString(fmt.Sprintf("%v = %#v\n", symbol, value))
 	}
 
